@@ -402,6 +402,14 @@ func init() {
 		"internal/race.Read", "internal/race.Write", "internal/race.ReadRange", "internal/race.WriteRange"} {
 		reg(n, nop)
 	}
+	// functions replaced by "returns the zero value": expensive initialisers whose results the kernels never use
+	for _, n := range []string{"github.com/blevesearch/vellum/levenshtein.NewLevenshteinAutomatonBuilder"} {
+		name := n
+		reg(name, func(in *Interp, caller *frame, pos token.Pos, fn *ssa.Function, args []Value) Value {
+			in.noteUsed("stubbed to zero value: " + name)
+			return in.zeroResults(fn)
+		})
+	}
 	reg("runtime.Gosched", func(in *Interp, caller *frame, pos token.Pos, fn *ssa.Function, args []Value) Value {
 		in.yield()
 		return nil
